@@ -313,7 +313,7 @@ func runC02(c *fw.Ctx) {
 		}
 	}
 	// Part B: every chunking of a resumable upload
-	sizes := []int{0, 1, 2, 3, 5}
+	sizes := []int{0, 1, 2, 3, 4, 5}
 	if c.Thorough() {
 		sizes = []int{0, 1, 2, 3, 4, 5, 6}
 	}
